@@ -15,6 +15,14 @@ class QuaHoldList(HoldList[QuaHold], QuaNoteList[QuaHold]):
     @staticmethod
     def from_yaml(dicts: List[Dict[str]]) -> QuaHoldList:
         df = pd.DataFrame(dicts)
+        # Omitted keys take the format's defaults before anything is computed from them
+        df = df.reindex(
+            df.columns.union(["StartTime", "Lane", "KeySounds", "EndTime"], sort=False),
+            axis=1,
+        )
+        df["StartTime"] = df["StartTime"].fillna(0)
+        df["Lane"] = df["Lane"].fillna(1)
+        df["KeySounds"] = [k if isinstance(k, list) else [] for k in df["KeySounds"]]
         df["EndTime"] -= df["StartTime"]
         df = df.rename(
             dict(
